@@ -461,6 +461,13 @@ def stepProvCore (d : ProvDrv) (a : Acc) (s : Step) : ProvDrv × Acc :=
         (Spec.C16.paidWithinEligibleCredits ((paidI.filter (·.1 == dn)).map (·.2)) creditsI st.height eligBlocks) s!"{dn} paid {paidI.filter (·.1 == dn)}"
       -- nothing leaves the pool in a denom that is neither registered nor allow-listed by a credited consumer
       let a := a.spec s.lineNo "C16.allowed-denoms-only" (!creditsI.isEmpty || (f.poolAfter == f.poolBefore && f.creditAfter == f.creditBefore)) s!"{dn}"
+      -- C13: a consumer's credit in a denom is touched only if the denom is registered or allow-listed by
+      -- THAT consumer (another consumer's allow-list has no effect on it)
+      let a := after.cs.foldl (fun a e =>
+        let own := registered || (splitNE ((before.cfields e.1).get "cdenoms") "+").contains dn
+        let cb := Rewards.getCredit (creditsOf before) e.1 dn
+        let ca := Rewards.getCredit (creditsOf after) e.1 dn
+        a.spec s.lineNo "C13.reward-allowlist-own-only" (own || ca == cb) s!"consumer={e.1} denom={dn} credit {cb}->{ca}") a
       a) a
     let a := if !ar.steps.isEmpty then { (a.tag "rewards-allocated") with nontrivial := a.nontrivial + 1 } else a
     let launched := st3.consumers.filter fun x => x.phase == .launched && (st.get x.id).phase != .launched
